@@ -92,6 +92,8 @@ func VpC18Middleware() {
 		Header: hdr, Host: "h", RemoteAddr: "10.0.0.1:1234"}
 	if len(reqBody) > 0 {
 		req.Body = &vpBodyReader{b: reqBody}
+		// known length, or unknown (chunked / HTTP/2 without content-length: -1 on the server)
+		req.ContentLength = []int64{int64(len(reqBody)), -1}[vp.Choice("contentlength", 2)]
 	}
 
 	// handler behaviour
